@@ -106,6 +106,12 @@ class SimStreamTransport(asyncio.Transport):
             return
         self._closing = True
         self.peer.log("close")
+        if self.peer.close_raises is not None:
+            # e.g. a hot-unplugged serial adapter: the OS error surfaces from close() itself
+            err, self.peer.close_raises = self.peer.close_raises, None
+            self.peer.world.faults["stream_close_raises"] += 1
+            self._loop.call_soon(self._call_connection_lost, None)
+            raise err
         err = self.peer.on_close()
         self._loop.call_soon(self._call_connection_lost, err)
 
@@ -160,6 +166,7 @@ class SimPeer:
         self.slow_consumer = False  # True: written bytes stay 'in flight' until consume() is called
         self.write_error = None  # exception instance to fail the next write with
         self.close_error = None
+        self.close_raises = None  # exception raised synchronously by transport.close()
 
     def log(self, kind, *args):
         self.world.log(self.name, kind, *args)
